@@ -436,6 +436,12 @@ func universal(sc *Scn, x *vrt.Sched, w *World) []Finding {
 			last[wr.MsgID] = p
 		}
 	}
+	// C04 states the same about every single response: it arrives as one well-formed LDAPMessage
+	for _, f := range fs {
+		if f.Prop == "C05" {
+			fs = append(fs, Finding{"C04", f.Key, f.Detail})
+		}
+	}
 	return fs
 }
 
